@@ -27,7 +27,8 @@ class Unsupported(Exception):
 
 class Target:
     def __init__(self, name, file, func, cls=None, params=(), ret="Rat", attrs=None, names=None, types=None, calls=None,
-                 monadic=False, fuel=False, doc="", body_of_if=False, index_attrs=None):
+                 monadic=False, fuel=False, doc="", body_of_if=False, index_attrs=None, setter=False, assign_attrs=None,
+                 opt_attrs=None):
         self.name, self.file, self.func, self.cls = name, file, func, cls
         self.params = list(params)          # [(python name or None, lean binder text)]
         self.ret = ret
@@ -40,9 +41,13 @@ class Target:
         self.doc = doc
         self.body_of_if = body_of_if        # translate only the body of the leading `if not hasattr(...)` (memoised property)
         self.index_attrs = index_attrs or {}  # (var, attr) -> how a subscript of that attribute is rendered
+        self.setter = setter                # take the `@x.setter` definition of a property
+        self.assign_attrs = assign_attrs or {}  # (var, attr) -> lean template of the new object value for `var.attr = {v}`
+        self.opt_attrs = opt_attrs or {}
+        self.ret_self = setter or func == "__init__"    # (var, attr) -> lean text of the Option behind an attribute tested with `is None`
 
 
-def find_func(tree, cls, func):
+def find_func(tree, cls, func, setter=False):
     body = tree.body
     if cls:
         for n in body:
@@ -55,6 +60,11 @@ def find_func(tree, cls, func):
     if not cands:
         raise Unsupported(f"function {func} not found")
     # a property with a setter: take the getter (first) unless the target asks for the setter
+    if setter:
+        for n in cands:
+            if any(isinstance(d, ast.Attribute) and d.attr == "setter" for d in n.decorator_list):
+                return n
+        raise Unsupported(f"setter of {func} not found")
     return cands[0]
 
 
@@ -168,7 +178,8 @@ class Tr:
     def cmp(self, op, left, right):
         # `x is None` / `x is not None` on mapped optionals
         if isinstance(op, (ast.Is, ast.IsNot)) and isinstance(right, ast.Constant) and right.value is None:
-            x = self.e(left)
+            key = (self.base_name(left.value), left.attr) if isinstance(left, ast.Attribute) else None
+            x = self.t.opt_attrs[key] if key in self.t.opt_attrs else self.e(left)
             return f"({x}).isNone" if isinstance(op, ast.Is) else f"({x}).isSome"
         a, b = self.e(left), self.e(right)
         sym = {ast.Lt: "<", ast.LtE: "≤", ast.Gt: ">", ast.GtE: "≥", ast.Eq: "=", ast.NotEq: "≠"}.get(type(op))
@@ -239,6 +250,8 @@ class Tr:
         """Translate a statement list that must end by returning on every path."""
         pad = "  " * ind
         if not stmts:
+            if self.t.ret_self:
+                return f"{pad}return self"
             raise Unsupported("path without return")
         s, rest = stmts[0], stmts[1:]
         if isinstance(s, ast.Expr) and isinstance(s.value, ast.Constant) and isinstance(s.value.value, str):
@@ -252,11 +265,22 @@ class Tr:
                 v = f"some {v}"
             return f"{pad}return {v}"
         if isinstance(s, ast.Assert):
-            return f"{pad}CR.Py.assert {self.e(s.test)}\n" + self.block(rest, ind)
+            return f"{pad}CR.Py.assert ({self.e(s.test)})\n" + self.block(rest, ind)
         if isinstance(s, ast.Assign) and len(s.targets) == 1:
             tg = s.targets[0]
             if isinstance(tg, ast.Name):
                 return f"{pad}let {self.local(tg.id)} := {self.e(s.value)}\n" + self.block(rest, ind)
+            if isinstance(tg, ast.Attribute) and (self.base_name(tg.value), tg.attr) in self.t.assign_attrs:
+                var = self.base_name(tg.value)
+                tmpl, monadic, optionize = self.t.assign_attrs[(var, tg.attr)]
+                is_none = isinstance(s.value, ast.Constant) and s.value.value is None
+                v = self.e(s.value)
+                if optionize:
+                    v = "none" if is_none else f"(some {v})"
+                if monadic:
+                    self.uses_bind = True
+                    return f"{pad}let {var} ← {tmpl.format(v=v)}\n" + self.block(rest, ind)
+                return f"{pad}let {var} := {tmpl.format(v=v)}\n" + self.block(rest, ind)
             if isinstance(tg, ast.Tuple) and all(isinstance(x, ast.Name) for x in tg.elts):
                 names = ", ".join(self.local(x.id) for x in tg.elts)
                 return f"{pad}let ({names}) := {self.e(s.value)}\n" + self.block(rest, ind)
@@ -340,6 +364,8 @@ class Tr:
             t.attrs[("self", last)] = last
             stmts = new
         body = self.block(stmts, 1)
+        if t.func == "__init__":
+            body = f"  let self : {t.ret} := (none, none)\n" + body
         binders = " ".join(f"({p})" for _, p in t.params)
         ret = f"Res ({t.ret})" if t.monadic else t.ret
         if t.monadic:
@@ -377,6 +403,20 @@ def targets():
                attrs=dict(I), monadic=True, calls=mk),
         Target("Interval_truediv", U, "__truediv__", "Interval", [("self", "self : CR.Iv.I"), ("other", "other : Rat")], "CR.Iv.I",
                attrs=dict(I), monadic=True, calls=mk),
+        Target("Interval_set_start", U, "start", "Interval", [("self", "self : Option Rat × Option Rat"), ("start", "start : Rat")],
+               "Option Rat × Option Rat", attrs={("self", "_end"): "(self.2.getD 0)"}, opt_attrs={("self", "_end"): "self.2"},
+               assign_attrs={("self", "_start"): ("({v}, self.2)", False, True)}, monadic=True, setter=True,
+               doc="property setter on a partially initialised object (start?, end?)"),
+        Target("Interval_set_end", U, "end", "Interval", [("self", "self : Option Rat × Option Rat"), ("end", "end_ : Rat")],
+               "Option Rat × Option Rat", attrs={("self", "_start"): "(self.1.getD 0)"}, opt_attrs={("self", "_start"): "self.1"},
+               assign_attrs={("self", "_end"): ("(self.1, {v})", False, True)}, monadic=True, setter=True,
+               doc="property setter on a partially initialised object (start?, end?)"),
+        Target("Interval_init", U, "__init__", "Interval", [("start", "start : Rat"), ("end", "end_ : Rat")],
+               "Option Rat × Option Rat",
+               assign_attrs={("self", "_start"): ("({v}, self.2)", False, True), ("self", "_end"): ("(self.1, {v})", False, True),
+                             ("self", "start"): ("Interval_set_start self {v}", True, False),
+                             ("self", "end"): ("Interval_set_end self {v}", True, False)}, monadic=True,
+               doc="constructor: both fields None, then the two property setters"),
         Target("Interval_length", U, "length", "Interval", [("self", "self : CR.Iv.I")], "Rat", attrs=dict(I)),
         Target("Interval_gt_num", U, "__gt__", "Interval", [("self", "self : CR.Iv.I"), ("other", "other : Rat")], "Bool",
                attrs=dict(I), types={"other": "num"}),
@@ -422,7 +462,7 @@ def targets():
 def translate_target(repo, t: Target) -> str:
     src = open(os.path.join(repo, t.file), encoding="utf-8").read()
     tree = ast.parse(src)
-    fn = find_func(tree, t.cls, t.func)
+    fn = find_func(tree, t.cls, t.func, t.setter)
     tr = Tr(t)
     out = tr.function(fn)
     return out
